@@ -52,6 +52,29 @@ var c11Methods = []c11Method{
 	{"Ctcp", func(c *client.Conn, t, x string) { c.Ctcp(t, "foo", x) }, "PRIVMSG", "FOO"},
 	{"CtcpReply", func(c *client.Conn, t, x string) { c.CtcpReply(t, "bar", x) }, "NOTICE", "BAR"},
 	{"Action", func(c *client.Conn, t, x string) { c.Action(t, x) }, "PRIVMSG", "ACTION"},
+	// the variadic forms with several operands: the text is what Sprintln / Sprintf make of them
+	{"Privmsgln/2", func(c *client.Conn, t, x string) { a, b := c11Halves(x); c.Privmsgln(t, a, b) }, "PRIVMSG", ""},
+	{"Privmsgf/2", func(c *client.Conn, t, x string) { a, b := c11Halves(x); c.Privmsgf(t, "%s %s", a, b) }, "PRIVMSG", ""},
+	{"Ctcp/2", func(c *client.Conn, t, x string) { a, b := c11Halves(x); c.Ctcp(t, "foo", a, b) }, "PRIVMSG", "FOO"},
+}
+
+// c11Effective is the text a call with argument text stands for: the two-operand forms join (x, "")
+// with a space, which makes the trailing space part of the text.
+func c11Effective(m *c11Method, text string) string {
+	if strings.HasSuffix(m.Name, "/2") && !strings.Contains(text[len(text)/2:], " ") {
+		return text + " "
+	}
+	return text
+}
+
+// c11Halves cuts x at its middle space (operands are joined with one space again); texts without a
+// space in the right place are passed as (x, "") minus the joining space, so the call always means x.
+func c11Halves(x string) (string, string) {
+	if i := strings.Index(x[len(x)/2:], " "); i >= 0 {
+		k := len(x)/2 + i
+		return x[:k], x[k+1:]
+	}
+	return x, ""
 }
 
 type c11Call struct {
@@ -98,6 +121,7 @@ func (cs *c11Sess) call(c *Ctx, caseID string, m *c11Method, text, class string)
 	if cs.n%2 == 0 {
 		t = fmt.Sprintf("n%d", cs.n%7)
 	}
+	text = c11Effective(m, text)
 	cs.pending = append(cs.pending, c11Call{caseID, m, t, text, class})
 	m.Call(cs.s.Conn, t, text)
 	if len(cs.pending) >= 1500 {
@@ -432,6 +456,7 @@ func runC11Conc(c *Ctx) {
 					text = text[:3000]
 				}
 				m := &c11Methods[rg.Intn(len(c11Methods))]
+				text = c11Effective(m, text)
 				plans[g] = append(plans[g], c11Call{caseID: Case("conc", idx), m: m, target: fmt.Sprintf("#g%d%c", g, "ab"[k%2]), text: text, class: "conc-" + cls})
 			}
 		}
